@@ -576,10 +576,14 @@ def run_batch(job) -> dict:
     n_hist = 0
     gen = GEN[subject]
     ex = EXEC[subject]
+    import hashlib  # noqa: PLC0415
+
+    log = hashlib.blake2b(digest_size=12)  # event-log digest: every generated op and verdict
     for _ in range(job["n"]):
         ops = gen(rng, probes)
         st["nontrivial_flag"] = False
         v = ex(ops, st)
+        log.update(repr((ops, None if v is None else (v["signature"], v["step"]), st["nontrivial_flag"])).encode())
         n_hist += 1
         if v is not None:
             if len(violations) < 5:
@@ -604,7 +608,7 @@ def run_batch(job) -> dict:
     }
     if subject == "stack":
         stats["set_abstract_stack"] = sorted(abstract)
-    return {"stats": stats, "violations": violations}
+    return {"stats": stats, "violations": violations, "digest": log.hexdigest()}
 
 
 # ----- Hypothesis stateful machine: second, independent history generator (thorough) -----
